@@ -73,14 +73,18 @@ class UpdateReferences:
       by the subclass
     """
     value = self.get(field)
+    if isinstance(value, list):
+      # an element of a list which refers to a removed line is dropped
+      self.__update_reference_in_list(value, oldref, newref)
+      return
+    if newref is None:
+      newref = str(oldref)
     if isinstance(value, gfapy.Line):
       if value is oldref:
         self._set_existing_field(field, newref, set_reference = True)
     elif isinstance(value, gfapy.OrientedLine):
       if value.line is oldref:
         value.line = newref
-    elif isinstance(value, list):
-      self.__update_reference_in_list(value, oldref, newref)
 
   def __update_reference_in_list(self, lst, oldref, newref):
     found = False
@@ -97,12 +101,12 @@ class UpdateReferences:
           elem.line = newref
           found = True
     if newref is None and found:
-      lst[:] = [e for e in lst if e is not None]
+      lst[:] = [e for e in lst if e is not None and \
+                not (isinstance(e, gfapy.OrientedLine) and e.line is None)]
 
   def __update_field_references(self, oldref, newref, possible_fieldnames):
     for fn in possible_fieldnames:
-      self.__update_reference_in_field(fn, oldref,
-          newref if newref else str(oldref))
+      self.__update_reference_in_field(fn, oldref, newref)
 
   def __update_nonfield_references(self, oldref, newref, possible_keys):
     for key in possible_keys:
